@@ -7,7 +7,8 @@ NAMES = ['commit', 'attach', 'motion', 'bind', 'delete_id', 'get_registry', 'don
          'destroy', 'frame', 'set_title', 'sync', 'poke', 'frob', 'enter', 'button']
 ARGNAMES = ['x', 'y', 'id', 'name', 'surface', 'callback', 'serial', 'time', 'interface', 'version', 'state', 'button', 'mode']
 LABELS = ['pressed', 'released', 'left', 'argb8888', 'none', 'top', 'bottom', 'copy', 'move']
-STRINGS = ['foo', 'wl_seat', 'hello world', 'a b', 'x', 'seat0', 'org.example.App', '', 'My  App', 'tab\there']
+STRINGS = ['foo', 'wl_seat', 'hello world', 'a b', 'x', 'seat0', 'org.example.App', '', 'My  App', 'tab\there',
+           '*', 'f*', '*o', 'hello*', 'a*b', '*seat*']      # a star inside quotes is a literal character
 
 
 def glob_of(rnd, w):
